@@ -81,10 +81,10 @@ def sort_pair_elements(lines):
     return out
 
 
-def normal_form(func, subs=(), keep_name=False, keep_param_names=False, post_subs=(), post_fn=None):
+def normal_form(func, subs=(), keep_name=False, keep_param_names=False, post_subs=(), post_fn=None, node=None):
     """List of normalised top-level statements (strings) of the function body."""
     from ..canon import canonical
-    src = ast.unparse(canonical(func.node))          # idiom-independent form (sa/canon.py)
+    src = ast.unparse(canonical(node if node is not None else func.node))          # idiom-independent form (sa/canon.py)
     tree = ast.parse(src)
     fn = tree.body[0]
     fn.decorator_list = []
@@ -119,7 +119,8 @@ def normal_form(func, subs=(), keep_name=False, keep_param_names=False, post_sub
 
 class Pair:
     def __init__(self, name, a, b, subs=(), mode="equal", expected=(), props=(), why="", c=None, header=True,
-                 keep_params=False, post_subs=(), post_fn=None):
+                 keep_params=False, post_subs=(), post_fn=None, deep_subs=()):
+        self.deep_subs = list(deep_subs)        # role-map entries needed only when the helpers are written out
         self.post_fn = post_fn
         self.keep_params = keep_params
         self.post_subs = post_subs
@@ -128,10 +129,31 @@ class Pair:
 
 
 def compare_pair(ctx, pair, clause):
+    """The siblings as written; when they disagree, once more with the private helpers of both written out (a helper merged,
+    extracted or inlined on one side only is not a disagreement).  The first comparison's report is kept when both fail."""
+    first = _compare_pair(ctx, pair, clause, deep=False)
+    if first.ok or pair.mode not in ("equal", "prefix") or pair.a == pair.b:
+        return first
+    try:
+        second = _compare_pair(ctx, pair, clause, deep=True)
+    except (AnalysisError, RecursionError):
+        return first
+    if second.ok:
+        second.msg += " (compared with the private helpers of both written out)"
+        return second
+    return first
+
+
+def _compare_pair(ctx, pair, clause, deep):
     p = ctx.p
     fa, fb = p.func(pair.a), p.func(pair.b)
-    ha, sa = normal_form(fa, pair.subs, keep_param_names=pair.keep_params, post_subs=pair.post_subs, post_fn=pair.post_fn)
-    hb, sb = normal_form(fb, pair.subs, keep_param_names=pair.keep_params, post_subs=pair.post_subs, post_fn=pair.post_fn)
+    na = nb = None
+    if deep:
+        from ..unextract import fully_inlined
+        na, nb = fully_inlined(p, fa), fully_inlined(p, fb)
+    subs = list(pair.subs) + (pair.deep_subs if deep else [])
+    ha, sa = normal_form(fa, subs, keep_param_names=pair.keep_params, post_subs=pair.post_subs, post_fn=pair.post_fn, node=na)
+    hb, sb = normal_form(fb, subs, keep_param_names=pair.keep_params, post_subs=pair.post_subs, post_fn=pair.post_fn, node=nb)
     key = "R-TWIN|%s" % pair.name
     loc = fa.loc()
 
@@ -248,7 +270,8 @@ PAIRS = [
     Pair("direct-1d-vs-2d-introduce", AFD + "_introduce_needed_elements_in_shape_classes_dict",
          IRF + "_introduce_needed_direct_elements_in_2d_shape_classes_dict", subs=[(r"\[_C_MAP_POS_DIRECT\]", "")], props=("C14",)),
     Pair("direct-1d-vs-2d-instance", AFD + "_annotate_direct_instance_features", IRF + "_annotate_2d_direct_instance_features",
-         subs=[(r"_annotate_2d_direct_instance_features_for_class", "_annotate_direct_instance_features_for_class")], props=("C14",)),
+         subs=[(r"_annotate_2d_direct_instance_features_for_class", "_annotate_direct_instance_features_for_class")], props=("C14",),
+         deep_subs=[(r"\[_C_MAP_POS_DIRECT\]", "")]),
     Pair("init-annotated-targets", AFD + "_init_annotated_direct_features", IRF + "init_annotated_targets",
          subs=[(r"\(\{\}, \{\}\)", "{}")], props=("C14", "C01", "C02")),
     Pair("init-original-targets", DFS + "init_original_targets", IRF + "init_original_targets",
